@@ -149,6 +149,23 @@ theorem fallback_scsv_enforced (smin smax cmax' : Version) (sversions cversions 
     simp
     intro _; exact hn
 
+/-- … and this holds whatever the resumption lookup would return: the SCSV test comes before
+    the server's resumption decision, so a fallback retry that offers a cached session or a ticket
+    is refused exactly like one that does not; no abbreviated handshake is started. -/
+theorem fallback_scsv_enforced_before_resumption (smin smax cmax' : Version)
+    (sversions cversions : List Version) (suites : List Nat) (sessionFound : Bool)
+    (hs : smax ∈ knownVersions) (hc : cmax' ∈ knownVersions)
+    (hcv : ∀ v ∈ cversions, vle v cmax' = true) (hlt : vlt cmax' smax = true) :
+    serverAfterHello sversions smin smax (clientOffer cmax' cversions).1 (clientOffer cmax' cversions).2
+        (clientWireSuites suites true) sessionFound = .error .inappropriateFallback := by
+  obtain ⟨v, hv, ha⟩ := (fallback_scsv_enforced smin smax cmax' sversions cversions suites hs hc hcv).1 hlt
+  simp only [serverAfterHello, hv, ha]
+
+example : (serverAfterHello [(3, 3), (3, 2), (3, 1)] (3, 1) (3, 3) (3, 2) none (clientWireSuites [0x2f] true) true).toOption
+      = none ∧
+    (serverAfterHello [(3, 3), (3, 2), (3, 1)] (3, 1) (3, 3) (3, 3) none (clientWireSuites [0x2f] true) true).toOption
+      = some ((3, 3), .abbreviated) := by decide
+
 example : (serverSelectVersion [(3, 4), (3, 3), (3, 2), (3, 1)] (3, 1) (3, 4) (3, 3) none).toOption = some (3, 3) ∧
     serverChecksScsv (3, 4) (3, 3) (clientWireSuites [0x2f] true) = .abort .inappropriateFallback := by
   decide
